@@ -218,6 +218,9 @@ def main(tier: str, only=None) -> int:
                 bad = f"near-miss {rec['name']}: refused with {rec['exception']} but the message carries no source position: {rec['message']!r}"
         elif rec.get("problems"):
             bad = f"near-miss {rec['name']}: accepted and the proto is malformed: {rec['problems'][0]}"
+        else:
+            # every near-miss program is outside the subset by construction (it has no faithful translation): accepting it is the violation
+            bad = f"near-miss {rec['name']}: accepted by the decorator although the program is outside the subset (it must be refused)"
         if bad:
             if rec["name"] in known_nm:
                 run.known(known_nm[rec["name"]]["text"])
